@@ -339,6 +339,55 @@ theorem cds_children_fresh (len : Int) (ops : List Op) (aid : Nat) (r' : Rec) (h
   injection hs with hs; subst hs
   exact ⟨r, hr, (peekArea_spec (run_inv hok hr).cache aid).2.2⟩
 
+/-- `cds in collection` is true exactly for the genes the collection's location contains (for every collection
+    in the record and every child of one) -/
+theorem cds_in_collection_exact (len : Int) (ops : List Op) (r : Rec) (hok : HistoryOK ops) (hrun : run len ops = .ok r)
+    (a : AreaT) (ha : a ∈ (liveAfter ops).areas) (d : AreaT) (hd : d ∈ nodes a) (gid : Nat) :
+    (r.children d.id).contains gid = true ↔ gid ∈ specChildren r.genes d := by
+  rw [List.contains_iff_mem]
+  exact area_children_exact len ops r hok hrun a ha d hd gid
+
+/-- … and the call itself reports that (it reads the live list, no cache is involved) -/
+theorem cds_in_collection_fresh (len : Int) (ops : List Op) (aid gid : Nat) (r' : Rec)
+    (hrun : run len (ops ++ [.hasCds aid gid]) = .ok r') :
+    ∃ r, run len ops = .ok r ∧ r'.log = r.log ++ [[[if (r.children aid).contains gid then 1 else 0]]] := by
+  obtain ⟨r, hr, hs⟩ := run_snoc hrun
+  simp only [step, pure, Except.pure] at hs
+  injection hs with hs; subst hs
+  exact ⟨r, hr, rfl⟩
+
+/-- `cds_children.index(cds)` after any history: the position of the gene in the collection's current list
+    (its first and only entry) … -/
+theorem children_index_exact (len : Int) (ops : List Op) (aid gid : Nat) (r' : Rec) (hok : ∀ op ∈ ops, OpOK op)
+    (hrun : run len (ops ++ [.indexOf aid gid]) = .ok r') :
+    ∃ r i, run len ops = .ok r ∧ r'.log = r.log ++ [[[i]]] ∧ (r.children aid)[i]? = some gid ∧
+      ∀ j < i, (r.children aid)[j]? ≠ some gid := by
+  obtain ⟨r, hr, hs⟩ := run_snoc hrun
+  obtain ⟨i, hi, e⟩ := indexOf_ok hs
+  obtain ⟨ce, _, hl, _⟩ := peekRegen_spec (run_inv hok hr).cache aid
+  have hch : (peekRegen r aid).children aid = r.children aid := by simp only [Rec.children, ce.members]
+  rw [hch] at hi
+  obtain ⟨h1, h2⟩ := indexIn_some hi
+  exact ⟨r, i, hr, by rw [e]; simp only [hl], h1, h2⟩
+
+/-- … and `IndexError` exactly when the collection does not list the gene -/
+theorem children_index_error (len : Int) (ops : List Op) (aid gid : Nat) (r : Rec) (hok : ∀ op ∈ ops, OpOK op)
+    (hrun : run len ops = .ok r) :
+    run len (ops ++ [.indexOf aid gid]) = .error "IndexError" ↔ gid ∉ r.children aid := by
+  obtain ⟨ce, _, _, _⟩ := peekRegen_spec (run_inv hok hrun).cache aid
+  have hch : (peekRegen r aid).children aid = r.children aid := by simp only [Rec.children, ce.members]
+  have hstep : run len (ops ++ [.indexOf aid gid]) = indexOf r aid gid := by
+    simp only [run, List.foldlM_append, List.foldlM_cons, List.foldlM_nil, bind, Except.bind] at hrun ⊢
+    rw [hrun]
+    simp only [step]
+    cases indexOf r aid gid <;> rfl
+  rw [hstep, ← indexIn_none (x := gid) (l := r.children aid), ← hch]
+  unfold indexOf
+  simp only []
+  cases hf : indexIn gid ((peekRegen r aid).children aid) with
+  | none => simp [throw, throwThe, MonadExceptOf.throw]
+  | some i => simp [pure, Except.pure]
+
 /-! ### 9  build-order independence (histories of adding calls) -/
 
 /-- any two orderings of the same adding calls (genes before areas, after them, or interleaved in any way)
